@@ -60,6 +60,8 @@ SS_SUM_TOL = 1e-12     # property
 SS_ACT_TOL = 1e-6      # property
 SS_PRESENT = 1e-12
 MOVED = 1e-9
+NEG_FLOOR = 1e-13     # mol; see check_pp
+STRICT_ZERO = [False]  # set per case from case["strict_zero"] (known replay of the tiny-negative-amount finding)
 AMOUNT_SLACK = 1e-12   # relative: rounding of (amount - delta) against the stored start amount
 
 
@@ -86,14 +88,29 @@ def asserted_si(p):
     return True
 
 
-def check_pp(case, row, start, strict, strict_ppt, res):
+def pp_moles(row, i, p):
+    """amount of mineral i after the step: built-in -equilibrium_phases column (EQUI() clamps negative amounts to 0)"""
+    if p["name"] in row and row[p["name"]] is not None:
+        return _num(row[p["name"]], "moles of " + p["name"])
+    return _num(row["eq_%d" % i], "EQUI " + p["name"])
+
+
+def check_pp(case, row, start, strict, strict_ppt, res, targets=None):
     """clauses for the minerals of the assemblage in one reaction step; start[i] = moles at the beginning of the step"""
     for i, p in enumerate(case["pp"]):
-        tag = "%s (target %s, start %r mol%s%s)" % (p["name"], G.fmt(p["si"]), start[i], ", " + p["opt"] if p["opt"] else "",
+        tag = "%s (target %s, start %r mol%s%s)" % (p["name"], G.fmt(p["si"] if targets is None else targets[i]), start[i], ", " + p["opt"] if p["opt"] else "",
                                                      ", force_equality" if p["fe"] else "")
-        m = _num(row["eq_%d" % i], "EQUI " + p["name"])
+        m = pp_moles(row, i, p)
         si = _num(row["si_%d" % i], "SI " + p["name"])
-        t = p["si"]
+        t = p["si"] if targets is None else targets[i]
+        if -NEG_FLOOR <= m < 0.0 and not STRICT_ZERO[0]:
+            # KNOWN FINDING (known_findings.json: absent-mineral-tiny-negative-amount): excluded by construction here and counted;
+            # the known replay sets "strict_zero" and applies "absent (exactly 0 mol)" as stated.
+            # rounding of (amount - last Newton step) against the optimizer's zero tolerance (KNOBS -tolerance, 1e-15):
+            # seen on the unchanged tree: -3.6e-15 mol for a mineral that starts and ends absent.  Counted, treated as
+            # absent (near-zero rule, DESIGN 4.3; floor 100 x the optimizer tolerance)
+            res["tiny_negative_amount"] = True
+            m = 0.0
         if m < 0.0:
             raise Violation("negative_moles", "%s: %r mol after the step" % (tag, m))
         if 0.0 < m < 1e-300:
@@ -159,7 +176,7 @@ def related_moles(case, row, d):
         name = d.get("phase") or d.get("rel")
         for i, p in enumerate(case["pp"]):
             if p["name"] == name:
-                return _num(row["eq_%d" % i], "EQUI " + name)
+                return pp_moles(row, i, p)
         raise Discard("related_phase_missing")
     return _num(row["kin"], "KIN")
 
@@ -175,8 +192,19 @@ def exch_capacity(case, row):
     return d["per_mole"] * d["z"] * related_moles(case, row, d)
 
 
-def check_exch(case, row, water, res, prev):
+def check_exch(case, row, water, res, prev, start_pp=None):
     want = exch_capacity(case, row)
+    d = case["exch"]
+    if d["kind"] == "phase" and start_pp is not None and not case.get("assert_known_findings"):
+        # known finding `tied-sites-not-resynchronised` (4th facet): during a calculation the engine does not recompute the
+        # sites of an exchanger tied to a mineral from proportion x moles but accumulates the mineral's Newton steps; when
+        # a step is clipped (reset() scales every delta except those of minerals) the two drift apart (seen: 4.5e-5
+        # relative, no warning until the next simulation resets the sites).  The clause is therefore only asserted for
+        # steps in which the mineral's amount did not change (counted otherwise).
+        for i, p in enumerate(case["pp"]):
+            if p["name"] == d["phase"] and pp_moles(row, i, p) != start_pp[i]:
+                res["tied_exch_not_asserted"] = True
+                return prev
     got = 0.0
     occ = {}
     for nm, z in G.exchange_species(case["db"]):
@@ -284,11 +312,11 @@ def check_dump(case, D, n, row, res, skip=()):
             m = float(c["moles"])
             if m < 0:
                 raise Violation("negative_moles", "saved assemblage holds %r mol of %s" % (m, p["name"]))
-            live = _num(row["eq_%d" % i], "EQUI")
+            live = pp_moles(row, i, p)
             if abs(m - live) > 1e-12 * max(abs(live), 1e-30) + 1e-300 and not (m == 0 and live == 0):
                 if abs(m - live) > 1e-9 * max(abs(live), 1e-20):
                     raise Violation("dump", "saved amount of %s %r differs from the amount of the last step %r" % (p["name"], m, live))
-    if "exch" in case and "exch" not in skip:
+    if "exch" in case and "exch" not in skip and not (res.get("tied_exch_not_asserted") and case["exch"]["kind"] == "phase"):
         ent = D.get(("EXCHANGE", n))
         if ent is None:
             raise Violation("dump", "EXCHANGE %d was saved but is not in the dump" % n)
@@ -358,6 +386,7 @@ def check_case(case, ctx):
     db = case.get("db")
     if db not in G.DB:
         raise Discard("unknown_db")
+    STRICT_ZERO[0] = bool(case.get("strict_zero"))
     os.chdir(ctx.scratch_dir())      # the engine writes error.inp into the current directory when a step does not converge
     I = lib.fresh(db)
     try:
@@ -413,7 +442,14 @@ def check_cell(case, ctx, I):
         prev_ex = prev_sf = None
         done = 0
         retried = False
+        targets = [p["si"] for p in case.get("pp", [])]
         for k, stg in enumerate(P["stages"]):
+            if k == 1:
+                # EQUILIBRIUM_PHASES_MODIFY between the stages: new targets / amounts of the saved assemblage
+                for i, si, moles in case.get("stage2", {}).get("modify", []):
+                    targets[i] = si
+                    if moles is not None:
+                        start_pp[i] = moles
             if I.run_string(stg["text"]) != 0:
                 if k == 0:
                     raise Discard("run_error")
@@ -437,15 +473,15 @@ def check_cell(case, ctx, I):
             for j, row in enumerate(rows):
                 water = _num(row["water"], "TOT(water)")
                 if "pp" in case:
-                    check_pp(case, row, sp, strict, strict_ppt, res)
+                    check_pp(case, row, sp, strict, strict_ppt, res, targets)
                 if "exch" in case and not (sites_off and "exch" in tied):
-                    prev_ex = check_exch(case, row, water, res, prev_ex)
+                    prev_ex = check_exch(case, row, water, res, prev_ex, sp)
                 if "surf" in case and not (sites_off and "surf" in tied):
                     prev_sf = check_surf(case, row, water, res, prev_sf)
                 if "ss" in case:
                     check_ss(case, row, ss0, res)
                 if case["incr"] or j == len(rows) - 1:
-                    sp = [float(row["eq_%d" % i]) for i in range(len(sp))]
+                    sp = [pp_moles(row, i, p) for i, p in enumerate(case.get("pp", []))]
                     ss0 = [[float(row["ssn_%d_%d" % (a, b)]) for b in range(len(s["comps"]))] for a, s in enumerate(case.get("ss", []))]
             start_pp, start_ss = sp, ss0
             D = R.parse(I.dump())
@@ -455,7 +491,9 @@ def check_cell(case, ctx, I):
     cl = ["db=" + db, "mode=" + case["mode"], "stages=%d" % done]
     npp = len([p for p in case.get("pp", []) if not p["alt"] and not p["name"].endswith("(g)")])
     cl.append("minerals=%d" % npp)
-    for key in ("fe_off_target", "inert", "exhausted", "appeared", "ss_exhausted", "ss_appeared", "ss_present", "sites_moved", "dissolve_only_blocked",
+    if res.get("tied_exch_not_asserted"):
+        cl.append("excluded_trigger:exchanger_tied_to_mineral_that_reacted_in_the_step")
+    for key in ("tiny_negative_amount", "fe_off_target", "inert", "exhausted", "appeared", "ss_exhausted", "ss_appeared", "ss_present", "sites_moved", "dissolve_only_blocked",
                 "precipitate_only_blocked"):
         if res.get(key):
             cl.append(key)
@@ -470,6 +508,8 @@ def check_cell(case, ctx, I):
             cl.append("pp_gas_not_asserted")
         if p["moles"] == 0.0:
             cl.append("pp_zero_start")
+        elif p["moles"] < 1e-9:
+            cl.append("pp_trace_start<1e-9")
     if case.get("exch", {}).get("nex") or case.get("surf", {}).get("nex"):
         cl.append("excluded_trigger:sites_tied_to_mineral_with_element_absent_from_solution")
     if case.get("incr_forced"):
@@ -481,6 +521,8 @@ def check_cell(case, ctx, I):
         cl.append("surf_edl_" + case["surf"]["edl"])
     for s in case.get("ss", []):
         cl.append("ss_nonideal" if s["nonideal"] else "ss_ideal")
+    if case.get("stage2", {}).get("modify") and done == 2:
+        cl.append("pp_modified_between_stages")
     if "kin" in case:
         cl.append("kinetics")
     if "reaction" in case:
